@@ -421,6 +421,7 @@ fn run_workers(bin: &std::path::Path, scenario: &str, tag: &str, seed: u64, tota
                     }
                     let status = child.wait().ok();
                     finished.store(true, std::sync::atomic::Ordering::Release);
+                    remove_scratch(pid);
                     if !done && next.is_none() {
                         // Died without telling us (abort, stack overflow, ...).
                         let code = status.and_then(|s| s.code()).unwrap_or(-1);
@@ -564,8 +565,16 @@ fn child_output(args: &[&str], secs: u64) -> Option<String> {
         }
         std::thread::sleep(Duration::from_millis(2));
     }
+    remove_scratch(child.id() as i32);
     let buf = reader.join().ok()?;
     Some(String::from_utf8_lossy(&buf).to_string())
+}
+
+/// The scratch directory a child process may have made for the `inotify`
+/// scenario (named after its pid): removed when the child is gone, however it
+/// ended.
+fn remove_scratch(pid: i32) {
+    let _ = std::fs::remove_dir_all(std::env::temp_dir().join(format!("a10sim-{pid}")));
 }
 
 /// Does `tape` still produce `class`? Runs in a child process.
